@@ -44,7 +44,7 @@ def fuelFor (bs : Bytes) : Nat := (bs.length + 2) * (env.defs.length + 1)
 
 def readClass (bs : Bytes) : Res (Val × Bytes) := read env (fuelFor bs) Gen.RawLayouts.classFileId none bs
 
-/-- the value lies outside the regions of the known JVMS defects -/
+/-- the value lies outside the region of the open JVMS defect (long/double pool entries) -/
 def avoids (v : Val) : Bool := avoidsV env (knownBad Gen.RawLayouts.cpInfoId) root v
 
 /-- JVMS conformance of what the model writes for `v`: the output is a well-framed class file -/
@@ -54,7 +54,7 @@ def jvmsOracle (full : Bool) (v : Val) : Ans :=
   | none => .ok (.list [tag "fail", tag "write-panics"])
   | some b => if JvmsRaw.Walk.classFile false b then .ok (tag "pass") else .ok (.list [tag "fail", tag "not-framed"])
 
-/-- byte round trip on the domain of well-framed class files (`known`: outside the known defect regions) -/
+/-- byte round trip on the domain of well-framed class files (`known`: without long/double pool entries, the open defect) -/
 def rtBytesOracle (known : Bool) (b : Bytes) : Ans :=
   if !JvmsRaw.Walk.classFile known b then .ok (tag "out-of-domain") else
   match read env ((b.length + 2) * (env.defs.length + 1)) Gen.RawLayouts.classFileId none b with
